@@ -197,8 +197,11 @@ def check_c07(ctx):
             sig = "C07/" + w["what"]
             what = "%s (group %d, source %s, wave %s)" % (w["what"], p["t"], w["input"], w["wave"])
         elif kind == "REJECT":
+            ev0 = [e for e in events if e["t"] == p["t"] and e["e"] == p["what"]][:1]
             sig = "C07/Crash:" + str(p["what"])
-            what = "group %d: %s" % (p["t"], [e for e in events if e["t"] == p["t"] and e["e"] == p["what"]][:1])
+            if p["what"] == "hang" and ev0:
+                sig = "C07/Hang/" + str(ev0[0].get("site"))
+            what = "group %d: %s" % (p["t"], ev0)
         else:
             continue
         core.add_violation(ctx, sig, what, {"family": "conc", "scenario": {k: v for k, v in by_id[p["t"]].items() if k != "sources"}})
